@@ -117,8 +117,9 @@ impl RevocationBitmap {
     // Only the first two characters are determined by the zlib header (0x78 0x9c); the third one also depends on the
     // first bits of the deflate stream and is not always `y`. The doubly encoded form starts with `ZUp`.
     if !data.starts_with("eJ") {
-      // Base64 encoded zlib default compression header
-      let decoded = BaseEncoding::decode(&data, Base::Base64)
+      // Base64 encoded zlib default compression header.
+      // The `;base64` payload of a data url is padded; `Base::Base64` expects the unpadded form.
+      let decoded = BaseEncoding::decode(data.trim_end_matches('='), Base::Base64)
         .map_err(|e| RevocationError::Base64DecodingError(data.into_owned(), e))?;
       data = Cow::Owned(
         String::from_utf8(decoded)
